@@ -1,5 +1,6 @@
 import RLV.Model.Comp
 import RLV.Lemmas.Kill
+import RLV.Lemmas.CompLine
 /-! C14 — Completion only rewrites the word being completed (property theorems).
 
 `Comp.insertCandidate` is the model of `(*Engine).insertCandidate` (and of `acceptCandidate`, which
@@ -8,7 +9,7 @@ cut that many runes, insert the candidate there (internal/completion/insert.go);
 `setPrefix` (utils.go). Both are compared with a real `completion.Engine` on every run
 (`rlv-diff -model comp`: `GenerateWith`, `Select`, `Line`). -/
 namespace RLV.Props.C14
-open RLV RLV.Core RLV.Comp
+open RLV RLV.Core RLV.Comp RLV.CompLine
 
 /-- Inserting a candidate only replaces the `|prefix|` runes before the cursor: for EVERY buffer,
 cursor, prefix no longer than the text before the cursor, and candidate value (without NUL runes)
@@ -19,39 +20,83 @@ theorem insert_only_replaces_the_prefix (l : Line) (cpos : Int) (pfx value : Lis
     (h0 : 0 ≤ cpos) (h1 : cpos ≤ len l) (hp : (pfx.length : Int) ≤ cpos)
     (hz : ∀ c ∈ value, c ≠ 0) (hg : ¬ (utf8 value).length < (utf8 pfx).length) :
     insertCandidate l cpos pfx value =
-      .ok (l.take (cpos - pfx.length).toNat ++ value ++ l.drop cpos.toNat, cpos - pfx.length + value.length) := by
-  unfold insertCandidate
-  simp only [hg, if_false, bind, Except.bind, pure, Except.pure]
-  have hb0 : 0 ≤ cpos - (pfx.length : Int) := by omega
-  have c1 : ¬ cpos - (pfx.length : Int) < 0 := by omega
-  have c2 : ¬ cpos - (pfx.length : Int) > len l := by omega
-  simp only [c1, c2, if_false]
-  have hcut := cut_spec l (cpos - pfx.length) (cpos - pfx.length + pfx.length) hb0 (by omega) (by omega)
-  have he : cpos - (pfx.length : Int) + pfx.length = cpos := by omega
-  rw [he] at hcut
-  simp only [he, hcut]
-  -- the cut line is long enough for the insertion point
-  have htl : (l.take (cpos - pfx.length).toNat).length = (cpos - pfx.length).toNat := by
-    rw [List.length_take]; unfold len at h1; omega
-  have hlen : len (l.take (cpos - pfx.length).toNat ++ l.drop cpos.toNat) ≥ cpos - pfx.length := by
-    unfold len
-    rw [List.length_append, htl]
-    omega
-  have c3 : ¬ cpos - (pfx.length : Int) > len (l.take (cpos - pfx.length).toNat ++ l.drop cpos.toNat) := by omega
-  simp only [c3, if_false]
-  rw [insert_spec _ (cpos - pfx.length) value hz hb0 (by omega)]
-  -- take/drop of the cut line at the cut point
-  have e1 : (l.take (cpos - pfx.length).toNat ++ l.drop cpos.toNat).take (cpos - pfx.length).toNat
-      = l.take (cpos - pfx.length).toNat := by
-    rw [List.take_append_of_le_length (by omega)]
-    exact List.take_of_length_le (by omega)
-  have e2 : (l.take (cpos - pfx.length).toNat ++ l.drop cpos.toNat).drop (cpos - pfx.length).toNat
-      = l.drop cpos.toNat := by
-    rw [List.drop_append_of_le_length (by omega), List.drop_of_length_le (by omega)]; rfl
-  rw [e1, e2]
+      .ok (l.take (cpos - pfx.length).toNat ++ value ++ l.drop cpos.toNat, cpos - pfx.length + value.length) :=
+  CompLine.insertCandidate_spec l cpos pfx value h0 h1 hp hz hg
 
 -- non-vacuity: completing `fi` in `ls fi -l` (cursor after `fi`) with `file.txt`
 example : (0 : Int) ≤ 5 ∧ (5 : Int) ≤ len [108, 115, 32, 102, 105, 32, 45, 108] ∧ (([102, 105] : List Nat).length : Int) ≤ 5 := by
   decide
+
+/-! ### The real line and the virtual line (`Model/CompLine`)
+
+`Good s`: the completion starts with the cursor inside the line and the prefix before it;
+`OKv s v`: a candidate without NUL runes that passes the byte-length guard of `insertCandidate`;
+`shown s v` / `shownCur s v`: text before the prefix ++ `v` ++ text after the cursor, cursor after `v`.
+The states are arbitrary otherwise (a candidate may already be shown, the virtual pair may still be the
+real pair or hold anything). -/
+
+/-- Selecting a candidate shows it in place of the prefix and nothing else, and does not touch the
+real line: whatever was shown before is dropped first. -/
+theorem selecting_shows_the_candidate_in_place_of_the_prefix (s : St) (v : List Nat)
+    (g : Good s) (ok : OKv s v) (hv : v ≠ []) :
+    ∃ s', select s v = .ok s' ∧ visible s' = (shown s v, shownCur s v) ∧
+      s'.line = s.line ∧ s'.cur = s.cur := by
+  obtain ⟨s', h1, h2⟩ := select_spec s v g ok
+  exact ⟨s', h1, visible_shows g h2 hv, h2.line, h2.cur⟩
+
+/-- Cycling through ANY sequence of candidates never accumulates text: after the last `Select` the
+line shown is the original line with the LAST candidate in place of the prefix. -/
+theorem cycling_shows_the_last_candidate_only (s : St) (vs : List (List Nat)) (v : List Nat)
+    (g : Good s) (ok : ∀ w ∈ vs ++ [v], OKv s w) (hv : v ≠ []) :
+    ∃ s', selects s (vs ++ [v]) = .ok s' ∧ visible s' = (shown s v, shownCur s v) ∧
+      s'.line = s.line ∧ s'.cur = s.cur := by
+  obtain ⟨s', h1, h2⟩ := selects_spec s vs v g ok
+  exact ⟨s', h1, visible_shows g h2 hv, h2.line, h2.cur⟩
+
+/-- Cancelling the menu (`Cancel(true, _)`, what abort / Ctrl-C runs) after any cycle, of any length,
+restores the original buffer and cursor: both the real pair and what `Engine.Line()` hands out. -/
+theorem cancelling_after_any_cycle_restores_line_and_cursor (s : St) (vs : List (List Nat))
+    (g : Good s) (ok : ∀ w ∈ vs, OKv s w) :
+    ∃ s', selects s vs = .ok s' ∧ (cancel s' true).line = s.line ∧ (cancel s' true).cur = s.cur ∧
+      visible (cancel s' true) = (s.line, s.cur) := by
+  rcases List.eq_nil_or_concat vs with h | ⟨ws, w, h⟩
+  · subst h
+    have hc := cancel_true_spec s g
+    refine ⟨s, rfl, hc.1, hc.2.1, ?_⟩
+    have g' : Good (cancel s true) := ⟨by rw [hc.2.1]; exact g.h0, by rw [hc.2.1, hc.1]; exact g.h1,
+      by rw [hc.2.1, hc.2.2.2]; exact g.hp⟩
+    rw [visible_unselected _ g' hc.2.2.1, hc.1, hc.2.1]
+  · subst h
+    rw [List.concat_eq_append] at ok ⊢
+    obtain ⟨s', h1, h2⟩ := selects_spec s ws w g ok
+    have g1 := shows_good g h2
+    have hc := cancel_true_spec s' g1
+    refine ⟨s', h1, by rw [hc.1, h2.line], by rw [hc.2.1, h2.cur], ?_⟩
+    have g' : Good (cancel s' true) := ⟨by rw [hc.2.1]; exact g1.h0, by rw [hc.2.1, hc.1]; exact g1.h1,
+      by rw [hc.2.1, hc.2.2.2]; exact g1.hp⟩
+    rw [visible_unselected _ g' hc.2.2.1, hc.1, hc.2.1, h2.line, h2.cur]
+
+/-- Keeping the candidate (`Cancel(false, _)`, what `UpdateInserted` runs before the next command)
+after any cycle makes the real line the original line with the last candidate in place of the prefix:
+text before the word and text after the cursor unchanged, cursor after the value. -/
+theorem keeping_after_any_cycle_inserts_the_last_candidate (s : St) (vs : List (List Nat)) (v : List Nat)
+    (g : Good s) (ok : ∀ w ∈ vs ++ [v], OKv s w) (hv : v ≠ []) :
+    ∃ s', selects s (vs ++ [v]) = .ok s' ∧ (cancel s' false).line = shown s v ∧
+      (cancel s' false).cur = shownCur s v ∧ (cancel s' false).sel = [] := by
+  obtain ⟨s', h1, h2⟩ := selects_spec s vs v g ok
+  have hc := cancel_false_spec g h2 hv
+  exact ⟨s', h1, hc.1, hc.2.1, hc.2.2⟩
+
+-- non-vacuity: `ls fi -l`, cursor after `fi`, prefix `fi`, candidates `file` and `find`
+example : Good { line := [108, 115, 32, 102, 105, 32, 45, 108], cur := 5, pfx := [102, 105] } :=
+  ⟨by decide, by decide, by decide⟩
+example : OKv { line := [108, 115, 32, 102, 105, 32, 45, 108], cur := 5, pfx := [102, 105] } [102, 105, 108, 101] :=
+  ⟨by decide, by decide⟩
+example : (match selects { line := [108, 115, 32, 102, 105, 32, 45, 108], cur := 5, pfx := [102, 105] }
+                [[102, 105, 108, 101], [102, 105, 110, 100]] with
+    | .ok s => visible s == ([108, 115, 32, 102, 105, 110, 100, 32, 45, 108], 7) &&
+               (cancel s true).line == [108, 115, 32, 102, 105, 32, 45, 108] &&
+               (cancel s false).line == [108, 115, 32, 102, 105, 110, 100, 32, 45, 108]
+    | .error _ => false) = true := by decide
 
 end RLV.Props.C14
